@@ -156,8 +156,36 @@ func (m *csMod) op(e *lib.Env, st Step) (string, lib.Outcome) {
 	panic("coinswap: unknown op " + st.K)
 }
 
-func genCS(r *lib.Rand, h *History) {
+func csSweep() []func(*CSParams) {
+	var fs []func(*CSParams)
+	for _, v := range sweepRates() {
+		v := v
+		fs = append(fs, func(p *CSParams) { p.Fee = v }, func(p *CSParams) { p.Tax = v }, func(p *CSParams) { p.Uni = v })
+	}
+	for _, v := range sweepAmounts() {
+		v := v
+		fs = append(fs, func(p *CSParams) { p.PCF.A = v })
+	}
+	for _, d := range []int{0, 2, 3} {
+		d := d
+		fs = append(fs, func(p *CSParams) { p.PCF.D = d })
+	}
+	return fs
+}
+
+func genCS(r *lib.Rand, h *History, i int) {
 	p := CSParams{Fee: sp("3000000000000000"), PCF: Coin{1, sp("5000")}, Tax: sp("400000000000000000"), Uni: sp("2000000000000000")}
+	if sw := csSweep(); i < len(sw) {
+		sw[i](&p)
+		h.CS = &p
+		h.Via = sweepVia(i)
+		amt := func(lo, hi int64) string { return big.NewInt(r.Range(lo, hi)).String() }
+		h.Steps = []Step{{"create_pool", []string{"0", amt(100000, 1000000000000), amt(100000, 1000000000000)}},
+			{"add_uni", []string{amt(1, 10000000000)}}, {"sell", []string{amt(1, 100000000)}}, {"buy", []string{amt(1, 90000)}},
+			{"remove_uni", []string{amt(1, 90000)}}, {"create_pool", []string{"1", amt(1000, 1000000), amt(1000, 1000000)}},
+			{"sell", []string{r.Big(36).Add(r.Big(36), big.NewInt(1)).String()}}}
+		return
+	}
 	// vary one field mostly, sometimes several
 	nvar := 1 + r.Weighted(6, 2, 1)
 	if r.Chance(1, 10) {
